@@ -91,7 +91,7 @@ func sharedFlush(ctx *core.Ctx, prop string, maxpend int, pattern string, mode s
 			}
 			if it.m.Type == wire.Tflush {
 				// the chain order is the arrival order
-				if !s.Ctl.WaitPassed("flush.chained", c.ID, int(it.m.Tag), 1, c07Budget) {
+				if !s.Ctl.WaitPassed("flush.chained", c.ID, int(it.m.Tag), 1, 5*time.Second) { // (not a feasibility probe: generous)
 					stuck = true
 				}
 			}
